@@ -236,6 +236,36 @@ pub fn prefill(quick: bool) -> Vec<Scenario> {
         .budgets(1, 0, 1, 2)
         .depth(9),
     ];
+    // pre-sent tasks of two request classes on one worker, either job canceled
+    v.push(
+        Scenario::new(
+            "prefill-two-classes-cancel",
+            vec![w(1).with("gpus", 1)],
+            vec![
+                vec![
+                    sub(arr(&[0, 1], 1)),
+                    sub(SubmitSpec::array(&[0, 1], RqSpec::only("gpus", "compact", 10_000))),
+                ],
+                vec![Req::Cancel(1)],
+                vec![Req::Cancel(2)],
+            ],
+        )
+        .prefill(0, 1),
+    );
+    // request variants of different size with pre-sending: a pre-sent task is called back and
+    // re-placed on the same worker with another variant while the worker starts it from its backlog
+    v.push(
+        Scenario::new(
+            "prefill-variants-same-worker",
+            vec![w(3)],
+            vec![
+                vec![sub(arr(&[0], 1).prio(1))],
+                vec![sub(arr(&[0, 1], 1).variants(vec![RqSpec::cpus(2), RqSpec::cpus(1)]))],
+                vec![sub(arr(&[0], 2))],
+            ],
+        )
+        .prefill(0, 3),
+    );
     if !quick {
         v.push(
             Scenario::new(
@@ -579,6 +609,33 @@ pub fn open(quick: bool) -> Vec<Scenario> {
             ],
         )
         .budgets(0, 1, 0, 1),
+        // a later submit depends on two tasks of an earlier one, one of which may already be done
+        // (the order of the dependency list handed to the core matters)
+        Scenario::new(
+            "open-deps-two-earlier",
+            vec![w(1)],
+            vec![
+                vec![
+                    Req::OpenJob { max_fails: None },
+                    sub(SubmitSpec::graph(&[(0, &[]), (1, &[]), (2, &[])], RqSpec::cpus(1)).into_job(1)),
+                ],
+                vec![
+                    sub(SubmitSpec::graph(&[(5, &[0, 1, 2]), (3, &[2, 0])], RqSpec::cpus(1)).into_job(1)),
+                    Req::CloseJob(1),
+                ],
+            ],
+        )
+        .budgets(0, 1, 0, 1),
+        // forget / cancel on a job that is still open
+        Scenario::new(
+            "open-cancel-forget",
+            vec![w(1)],
+            vec![
+                vec![Req::OpenJob { max_fails: None }, sub(arr(&[0], 1).into_job(1)), Req::JobInfo],
+                vec![Req::Cancel(1), Req::Forget(1), Req::JobInfo],
+            ],
+        )
+        .budgets(0, 1, 0, 1),
         // Appendix A #21: empty entries
         Scenario::new(
             "open-empty-entries",
@@ -755,6 +812,15 @@ pub fn journal(quick: bool) -> Vec<Scenario> {
         )
         .journal()
         .budgets(1, 0, 1, 2),
+        // the other loss reasons (only failures count as crashes, also after a restart)
+        Scenario::new(
+            "journal-kill-reasons",
+            vec![w(1), w(1).spare()],
+            vec![vec![sub(arr(&[0], 1).crash_limit("2"))]],
+        )
+        .journal()
+        .budgets(1, 0, 1, 2)
+        .kill_reasons(&["TimeLimitReached", "Stopped", "IdleTimeout", "HeartbeatLost"]),
         Scenario::new(
             "journal-open",
             vec![w(1)],
